@@ -263,6 +263,45 @@ func (e *TCPEnd) WriteCutsGap(data []byte, cuts []int, gap time.Duration) {
 	}
 }
 
+// WriteCutsAndClose sends data cut at the given offsets and closes this end so that the end of stream reaches the peer
+// in the same instant as the last segment (FIN on the last data packet): the peer's reader finds the bytes and, on its
+// very next read, the end of stream - before anybody else had simulated time to run.
+func (e *TCPEnd) WriteCutsAndClose(data []byte, cuts []int) {
+	if e.closed || e.reset || e.wclosed {
+		return
+	}
+	e.Writes++
+	e.Written = append(e.Written, data...)
+	n := e.n
+	prev := 0
+	all := append(append([]int{}, cuts...), len(data))
+	for i, c := range all {
+		if c <= prev || c > len(data) {
+			continue
+		}
+		seg := data[prev:c]
+		prev = c
+		last := i == len(all)-1
+		e.arriveAfter(n.latency(), func(p *TCPEnd) {
+			if p.closed || p.reset {
+				return
+			}
+			if p.Proxy {
+				p.rbuf = append(p.rbuf, seg...)
+				n.event("tcp-arrive", e.Local.String(), p.Local.String(), e.ID, strconv.Itoa(len(seg)))
+			} else if p.OnData != nil {
+				p.OnData(seg)
+			}
+			if last {
+				p.eof = true
+			}
+		})
+	}
+	e.closed = true
+	n.Fired["tcp-fin-with-last-segment"]++
+	n.event("tcp-close", e.Local.String(), e.Remote.String(), e.ID, "with the last segment")
+}
+
 // arriveAfter schedules fn at the peer no earlier than anything scheduled before.
 func (e *TCPEnd) arriveAfter(lat time.Duration, fn func(p *TCPEnd)) {
 	k := e.n.K
